@@ -116,6 +116,10 @@ def run_storage(cat, num, max_depth, cap, grace, seed, nupdates, gen, log_from=0
 
     imp_s = TreeImputer(model, st, use_storage=True)
     imp_m = TreeImputer(model, st, use_storage=False)
+    # the same two modes combined with the other constructor option (numeric features predicted directly when the
+    # *model* is sampled): with use_storage the values still come from the routed leaf's reservoir
+    imp_sd = TreeImputer(model, st, direct_predict_numeric=True, use_storage=True)
+    imp_md = TreeImputer(model, st, True, False)
     all_names = None
     ev = []
     val_tok = {}
@@ -161,7 +165,10 @@ def run_storage(cat, num, max_depth, cap, grace, seed, nupdates, gen, log_from=0
                 probe = dict(x)
             elif (t // impute_every) % 4 == 0:
                 probe.update(x)
-            targets = [(imp_s, "storage", x), (imp_m, "model", x), (imp_s, "storage", probe), (imp_m, "model", probe)]
+            if (t // impute_every) % 2:
+                targets = [(imp_s, "storage", x), (imp_m, "model", x), (imp_sd, "storage", probe), (imp_md, "model", probe)]
+            else:
+                targets = [(imp_sd, "storage", x), (imp_md, "model", x), (imp_s, "storage", probe), (imp_m, "model", probe)]
             x_cur = x
             for imp, mode, x in targets:
                 sub = [f for f in feats if random.random() < 0.6] if t % (2 * impute_every) else []
